@@ -30,6 +30,9 @@ pub struct Params {
     /// rewards are governed by the commission itself, whatever these say)
     #[serde(default)]
     pub max_commissions: Vec<(String, String)>,
+    /// validator naming scheme (0: validator0, validator1, ...; 1: validator1, validator10, validator100)
+    #[serde(default)]
+    pub naming: u8,
     /// the bonded denomination (staking parameter, fixed at setup)
     #[serde(default = "default_denom")]
     pub denom: String,
@@ -92,7 +95,16 @@ pub struct Inst {
 }
 
 pub fn validators(p: &Params) -> Vec<String> {
-    (0..p.commissions.len()).map(|i| format!("validator{}", i)).collect()
+    (0..p.commissions.len()).map(|i| validator_name(p, i)).collect()
+}
+
+/// Naming scheme 1 makes every validator's address a proper prefix of the next one's.
+pub fn validator_name(p: &Params, i: usize) -> String {
+    if p.naming == 1 {
+        format!("validator1{}", "0".repeat(i))
+    } else {
+        format!("validator{}", i)
+    }
 }
 
 pub const START_BALANCE: u128 = 100_000_000;
@@ -110,7 +122,7 @@ impl Inst {
                 .unwrap();
             for (i, c) in p.commissions.iter().enumerate() {
                 let (mc, mr) = p.max_commissions.get(i).cloned().unwrap_or(("1".into(), "0.01".into()));
-                let v = Validator::create(format!("validator{}", i), Decimal::from_str(c).unwrap(), Decimal::from_str(&mc).unwrap(), Decimal::from_str(&mr).unwrap());
+                let v = Validator::create(validator_name(p, i), Decimal::from_str(c).unwrap(), Decimal::from_str(&mc).unwrap(), Decimal::from_str(&mr).unwrap());
                 router.staking.add_validator(api, storage, &block, v).unwrap();
             }
         });
@@ -981,7 +993,8 @@ pub fn gen_params(rng: &mut Rng) -> Params {
     let commissions = (0..n).map(|_| rng.pick(&pool).to_string()).collect();
     let denom = rng.pick(&["TOKEN", "TOKEN", "ustake"]).to_string();
     let max_commissions = (0..n).map(|_| (rng.pick(&["1", "1", "0.2", "0", "0.05"]).to_string(), rng.pick(&["0.01", "0", "1"]).to_string())).collect();
-    Params { apr, unbonding, commissions, max_commissions, denom }
+    let naming = if rng.chance(1, 3) { 1 } else { 0 };
+    Params { apr, unbonding, commissions, max_commissions, naming, denom }
 }
 
 fn gen_amount(rng: &mut Rng, reference: u128) -> u128 {
@@ -1152,7 +1165,7 @@ pub fn run_case(case: &Case, with_twin: bool, rep: &mut Report) -> Vec<Fail> {
 
 /// Constructive histories: the scenarios of DESIGN.md section 6 (D1, D6, D7) and the basic flows.
 pub fn templates() -> Vec<(String, Case)> {
-    let p = Params { apr: "0.1".into(), unbonding: 60, commissions: vec!["0.1".into(), "0".into()], max_commissions: vec![], denom: DENOM.to_string() };
+    let p = Params { apr: "0.1".into(), unbonding: 60, commissions: vec!["0.1".into(), "0".into()], max_commissions: vec![], naming: 0, denom: DENOM.to_string() };
     let v0 = "validator0".to_string();
     let v1 = "validator1".to_string();
     let t = DENOM.to_string();
